@@ -12,6 +12,8 @@ setup: consts coq runner gate
 consts:
 	@$(PY) harness/gen_consts.py theories/Generated/Consts.v || \
 	  (echo "gen_consts aborted: falling back to committed Consts.v"; git checkout -- theories/Generated/Consts.v 2>/dev/null || true)
+	@$(PY) harness/gen_logic.py theories/Generated/LogicGen.v || \
+	  (echo "gen_logic aborted: falling back to committed LogicGen.v"; git checkout -- theories/Generated/LogicGen.v 2>/dev/null || true)
 
 Makefile.coq: _CoqProject
 	coq_makefile -f _CoqProject -o Makefile.coq
